@@ -107,3 +107,30 @@ Theorem isempty_spec {A} (s : str A) :
                 | SUnk => SUnk
                 end.
 Proof. destruct s; reflexivity. Qed.
+
+(** ** any and all *)
+(** all(g; cond) = isempty(g | cond and empty), any(g; cond) = isempty(g | cond or empty) | not (defs.jq), on the stream of
+    the truth values of cond: `b and empty` yields false for a false b and nothing for a true one, `b or empty` yields true for
+    a true b and nothing for a false one *)
+Definition all_s (s : str bool) : str val := isempty_s (sbind s (fun b => if b then SNil else sone (Bool false))).
+Definition any_s (s : str bool) : str val :=
+  sbind (isempty_s (sbind s (fun b => if b then sone (Bool true) else SNil))) (fun v => sone (Bool (negb (match v with Bool true => true | _ => false end)))).
+
+Lemma all_of_list bs : all_s (of_list bs) = sone (Bool (forallb (fun b => b) bs)).
+Proof.
+  unfold all_s. induction bs as [|b bs IH]; [reflexivity|]. cbn [of_list sbind forallb]. destruct b; cbn [sapp andb]; [exact IH|reflexivity].
+Qed.
+
+Lemma any_of_list bs : any_s (of_list bs) = sone (Bool (existsb (fun b => b) bs)).
+Proof.
+  unfold any_s. induction bs as [|b bs IH]; [reflexivity|]. cbn [of_list sbind existsb]. destruct b; cbn [sapp orb]; [reflexivity|exact IH].
+Qed.
+
+(** they stop at the first deciding value: what follows it - an error, a halt, no end - is not looked at *)
+Lemma all_stops_at_the_first_false n (rest : unit -> str bool) :
+  all_s (sapp (of_list (repeat true n ++ [false])) rest) = sone (Bool false).
+Proof. unfold all_s. induction n as [|n IH]; [reflexivity|]. cbn [repeat app of_list sapp sbind]. exact IH. Qed.
+
+Lemma any_stops_at_the_first_true n (rest : unit -> str bool) :
+  any_s (sapp (of_list (repeat false n ++ [true])) rest) = sone (Bool true).
+Proof. unfold any_s. induction n as [|n IH]; [reflexivity|]. cbn [repeat app of_list sapp sbind]. exact IH. Qed.
